@@ -1,6 +1,7 @@
 package rules
 
 import (
+	"go/types"
 	"go/token"
 	"strings"
 
@@ -25,7 +26,7 @@ func C05(r *core.Run) {
 		"(R05.2) with versioning enabled, the current version is archived under its own id before it is replaced; (R05.3/R09.1n) bucketObject.data is never nil while the key is in the bucket, nilable iterator fields are guarded; " +
 		"(R05.4) archived versions are discarded only by rmVersion/promote with the addressed id, the current version only when its id was addressed, the key only when nothing remains, setVersioning touches nothing but the status; " +
 		"(R05.5) every put draws a fresh id from the generator, whose counter is incremented under its mutex and is part of the id; " +
-		"(R05.6) a current version is overwritten without archiving only when the bucket was never versioned; (R01.6) bytes and metadata maps of stored versions are never modified (an archived version keeps exactly its own metadata). (R05.7) a freshly built version that becomes current outside put carries an id from the generator."
+		"(R05.6) a current version is overwritten without archiving only when the bucket was never versioned; (R01.6) bytes and metadata maps of stored versions are never modified (an archived version keeps exactly its own metadata). (R05.7) a freshly built version that becomes current outside put carries an id from the generator. (R05.8) whether a handler uses the version-aware backend call depends on the backend being versioned and on the request, never on the bucket's current versioning status: version ids stay addressable while versioning is suspended."
 	r.NotDecided = "that old versions keep their bytes (follows from R01.6 + immutability of bucketData, checked under C07), 'most recently created' order of remaining versions, multi-delete semantics, value-level uniqueness of ids beyond the counter"
 	ctx := oblig.NewCtx(r.P)
 	installNonNilHook(r, ctx)
@@ -40,6 +41,7 @@ func C05(r *core.Run) {
 	rule055(r)
 	rule056(r, ctx)
 	rule057(r)
+	rule058(r)
 	rule016(r, "C05")
 }
 
@@ -671,4 +673,60 @@ func rule057(r *core.Run) {
 	if n == 0 {
 		r.Info("R05.7", "none", "", "no fresh bucketData is stored as current version outside put")
 	}
+}
+
+// rule058 — version ids are honoured whatever the bucket's versioning status is.
+func rule058(r *core.Run) {
+	r.Rule("R05.8", "in the handlers of package gofakes3 no call on the Backend / VersionedBackend interfaces is guarded by a condition that derives from VersioningConfiguration(bucket): the choice between the plain and the version-aware call is made by `g.versioned == nil` and the request's version id alone (a Suspended bucket still addresses its versions by id; only the backend decides what a status means)")
+	n := 0
+	for _, fn := range r.P.FuncsOfPkg("gofakes3") {
+		f := fn
+		if !strings.Contains(fname(r, f), "GoFakeS3") {
+			continue
+		}
+		core.Instrs(f, func(in ssa.Instruction) {
+			c, ok := in.(*ssa.Call)
+			if !ok || !c.Call.IsInvoke() {
+				return
+			}
+			cn := r.P.CalleeName(c)
+			if !strings.HasPrefix(cn, "invoke:gofakes3.Backend.") && !strings.HasPrefix(cn, "invoke:gofakes3.VersionedBackend.") {
+				return
+			}
+			if strings.HasSuffix(cn, ".VersioningConfiguration") {
+				return
+			}
+			n++
+			bad := ""
+			for _, g := range core.GuardsOf(c) {
+				// the whole merged condition counts: a flag variable assigned from the configuration
+				gs := r.P.SliceOf(g.If.Cond, core.SliceOpts{Depth: -1})
+				for cc := range gs.Calls {
+					if strings.HasSuffix(r.P.CalleeName(cc), "VersionedBackend.VersioningConfiguration") {
+						// the error result of the configuration call may be checked; its value may not decide
+						if isErrOf(g.If.Cond, cc) {
+							continue
+						}
+						bad = pos(r, g.If)
+					}
+				}
+			}
+			r.Check(bad == "", "R05.8", key(fname(r, f), "API choice independent of the versioning status", strings.TrimPrefix(cn, "invoke:gofakes3."), sprintf("#%d", n)), pos(r, c), "not guarded by the bucket's versioning status",
+				"the call is made only for some values of the bucket's versioning configuration (test at "+bad+"): with versioning suspended the request's version ids are ignored or a different operation runs")
+		})
+	}
+	if n < 20 {
+		r.Unresolved("R05.8: only %d backend calls found in the handlers", n)
+	}
+}
+
+// isErrOf: cond is a nil test of the error result of call c.
+func isErrOf(cond ssa.Value, c ssa.CallInstruction) bool {
+	cd := core.CondOf(cond)
+	for _, v := range []ssa.Value{cd.X, cd.Y} {
+		if ex, ok := v.(*ssa.Extract); ok && ex.Tuple == c.Value() && ex.Index == c.Value().Type().(*types.Tuple).Len()-1 {
+			return true
+		}
+	}
+	return false
 }
